@@ -363,13 +363,14 @@ def simulate_process(case, dest):
     import qrcode.console_scripts as cs
     data = bytes.fromhex(case["data"])
     argv = build_argv(case, dest)
+    stdin_tty = bool(case.get("stdin_tty"))
     stdin = SimStdin(data if case["source"] == "stdin" else b"",
                      case.get("chunks") or [1 << 30],
-                     buffer_size=case.get("stdin_bufsize", 8192))
+                     buffer_size=case.get("stdin_bufsize", 8192), tty=stdin_tty)
     tty = dest == "tty" or (dest == "output" and case.get("output_stdout_tty", False))
     stdout = SimStdout(tty=tty, fd=1, max_write=case.get("max_write"))
     stderr = io.StringIO()
-    fds = FdTable({0: False, 1: tty, 2: False})
+    fds = FdTable({0: stdin_tty, 1: tty, 2: False})
     fs = SimFS(lambda p: os.path.abspath(p).startswith("/simfs/"))
     saved = sys.stdin, sys.stdout, sys.stderr, sys.argv
     status, exc = 0, None
@@ -446,6 +447,8 @@ def run_case(case, ref=None):
     stats.inc("fault.stdout_short_writes", res["short_writes"])
     if dest == "tty":
         stats.inc("fault.stdout_is_tty")
+    if case.get("stdin_tty"):
+        stats.inc("fault.stdin_is_tty")
     log.ev("argv", res["argv"], "status", res["status"], res["exc"],
            "stdout", core.short_hash(res["stdout"]), "file",
            core.short_hash(res["file"] or b""), "consumed", res["stdin_consumed"])
@@ -737,6 +740,18 @@ def generate(rng, tier, opts=None):
         else:
             case["chunks"] = [rng.choice([1, 2, 5, 16, 100, 4096]) for _ in range(rng.randint(2, 5))]
         case["stdin_bufsize"] = rng.choice([8192, 8192, 16, 1, 4096])
+        if rng.random() < 0.2:
+            # data typed at a terminal: stdin is a tty and delivers line by line
+            case["stdin_tty"] = True
+            sizes, run = [], 0
+            for b in data:
+                run += 1
+                if b == 10:
+                    sizes.append(run)
+                    run = 0
+            if run:
+                sizes.append(run)
+            case["chunks"] = sizes[:64] or [1 << 30]
     else:
         case["argpos"] = rng.choice(["first", "last"])
         case["dashdash"] = rng.random() < 0.2
@@ -827,7 +842,7 @@ def minimise(ctx, case, violation):
     data = core.ddmin(data, lambda d: _fails(ctx, dict(case, data=bytes(d).hex()), key),
                       max_tests=150)
     case["data"] = bytes(data).hex()
-    for k, simple in (("drawer", None), ("optimize", None), ("level", None), ("ascii", False),
+    for k, simple in (("stdin_tty", False), ("drawer", None), ("optimize", None), ("level", None), ("ascii", False),
                       ("eq", False), ("max_write", None), ("chunks", [1 << 30]),
                       ("stdin_bufsize", 8192), ("dashdash", False), ("argpos", "last"),
                       ("factory", None), ("output_stdout_tty", False), ("pass_args", True)):
@@ -910,7 +925,7 @@ def post_batch(tier, master, opts):
             rng = random.Random(core.derive_seed(master, "C17/fidelity", i))
             i += 1
             case = generate(rng, "quick", opts)
-            if len(case["data"]) > 600:
+            if len(case["data"]) > 600 or case.get("stdin_tty"):
                 continue
             case.pop("max_write", None)
             sim = fs.run(_sim_only, case, timeout=120)
